@@ -124,11 +124,13 @@ pub(crate) fn tokenize(
                 let incpathref = Path::new(&incfilename);
                 let loadresult = loader::load(incpathref);
                 if let Ok(incfiledata) = loadresult {
-                    let mut tokresult = tokenize(
-                        &Filename::new(incfilename, incname),
-                        next_fileid,
-                        &incfiledata,
-                    )?;
+                    // everything that a nested include pulls in belongs to the directive of the main file
+                    let mut inc_filename = Filename::new(incfilename, incname);
+                    inc_filename.top_include = filename
+                        .top_include
+                        .clone()
+                        .or_else(|| Some(incname.to_owned()));
+                    let mut tokresult = tokenize(&inc_filename, next_fileid, &incfiledata)?;
 
                     next_fileid += tokresult.filenames.len();
 
